@@ -116,7 +116,7 @@ def render_affinity(rng, K, L, diag, style=None):
 
 def mismatching_affinity(rng, K, L):
     """files whose columns / layers / layer ids disagree with K, L: must be rejected"""
-    kind = rng.choice([0, 1, 2, 4, 5, 7, 8] if L == 1 else [0, 1, 2, 3, 4, 5, 6, 7, 8])
+    kind = rng.choice([0, 1, 2, 4, 5, 7, 8] if L == 1 else [0, 1, 2, 3, 4, 5, 6, 7, 8, 9, 9])
     diag = [[round(rng.unit(), 3) for _ in range(K)] for _ in range(L)]
     if kind == 0:
         diag = [row + [0.5] for row in diag]                      # one column too many everywhere
@@ -140,6 +140,11 @@ def mismatching_affinity(rng, K, L):
         lines = ['# only a comment', '']
     if kind == 3 and L == 1:
         lines = []
+    if kind == 9:
+        # a layer other than the last one is missing: fewer layer lines than L, distinct ids, the largest id still L - 1 (a gap in the ids)
+        del lines[rng.below(L - 1)]
+        if rng.chance(0.5):
+            lines = rng.shuffle(lines)
     if kind == 8:
         # a stray line holding nothing but a (one-character) layer id: a row without a single value
         lines.insert(rng.below(len(lines) + 1), str(rng.below(min(L, 10))))
